@@ -14,7 +14,14 @@ Record world := {
   wd_write_err : option str                     (* os.WriteFile failure, if any *)
 }.
 
-(** printer state: the indent stack and the lines printed so far (reversed) *)
+(** Printer calls are recorded as events (the steps only ever append to the report, they never read it);
+    [render] replays them on the printer state: indent stack + lines printed so far (reversed). *)
+Inductive event :=
+| EvLine (x : str)                          (* Println *)
+| EvAligned (left right extra : str)        (* PrintAlignedLn *)
+| EvIndent (x : str)                        (* Indent *)
+| EvEndIndent.                              (* EndIndent *)
+
 Record pst := { p_indents : list str; p_lines : list str }.
 Definition p0 : pst := {| p_indents := []; p_lines := [] |}.
 Definition println (x : str) (p : pst) : pst :=
@@ -33,7 +40,7 @@ Arguments Ok {A}. Arguments Panic {A}.
 Section WithEnv.
 Variable E : env.
 
-Definition dot : str := bs [194; 183].   (* "·" *)
+Definition dot : str := bs [194; 183]%N.   (* "·" *)
 
 (** PrintAlignedLn: strings.Repeat panics on a negative count *)
 Definition print_aligned (left right : str) (extra : str) (p : pst) : res pst :=
@@ -45,7 +52,8 @@ Definition print_aligned (left right : str) (extra : str) (p : pst) : res pst :=
 Definition file_lookup (w : world) (f : str) : file_result :=
   match lookup f (wd_files w) with Some r => r | None => FReadErr (s "open " ++ f ++ s ": no such file or directory") end.
 
-Record rstate := { r_input : input; r_found : bool; r_processed : list (str * list str); r_errs : list err; r_pr : pst }.
+(** reading is computed purely: merged input, errors, and the report lines (printed afterwards, in order) *)
+Record rstate := { r_input : input; r_found : bool; r_processed : list (str * list str); r_errs : list err; r_lines : list str }.
 
 Definition add_processed (f p : str) (l : list (str * list str)) : list (str * list str) :=
   match lookup f l with
@@ -53,48 +61,55 @@ Definition add_processed (f p : str) (l : list (str * list str)) : list (str * l
   | None => l ++ [(f, [p])]
   end.
 
+Definition bullet : str := bs [226;128;162]%N.   (* "•" *)
+Definition file_line (f mark : str) : str := s "   " ++ bullet ++ s " " ++ f ++ s " " ++ mark.
+
 Definition read_file (w : world) (pat : str) (st : rstate) (f : str) : rstate :=
   match file_lookup w f with
   | FReadErr m =>
       {| r_input := r_input st; r_found := r_found st; r_processed := r_processed st;
          r_errs := r_errs st ++ [gprefix (s "`" ++ f ++ s "`: ") [gprefix (s "could not read the file: ") [leaf m]]];
-         r_pr := println (s "   " ++ bs [226;128;162] ++ s " " ++ f ++ s " " ++ k_xmark E) (r_pr st) |}
+         r_lines := r_lines st ++ [file_line f (k_xmark E)] |}
   | FYamlErr m =>
       {| r_input := r_input st; r_found := r_found st; r_processed := r_processed st;
          r_errs := r_errs st ++ [gprefix (s "`" ++ f ++ s "`: ") [gprefix (s "parsing yaml: ") [leaf m]]];
-         r_pr := println (s "   " ++ bs [226;128;162] ++ s " " ++ f ++ s " " ++ k_xmark E) (r_pr st) |}
+         r_lines := r_lines st ++ [file_line f (k_xmark E)] |}
   | FInput i =>
       {| r_input := merge (r_input st) i; r_found := true; r_processed := add_processed f pat (r_processed st);
          r_errs := r_errs st ++ [None];
-         r_pr := println (s "   " ++ bs [226;128;162] ++ s " " ++ f ++ s " " ++ k_check E) (r_pr st) |}
+         r_lines := r_lines st ++ [file_line f (k_check E)] |}
   end.
+
+(** findFiles: cleaned matches in byte order, or the glob error *)
+Definition pattern_files (g : glob_result) : list str :=
+  match gl_err g with Some _ => [] | None => sort_strs (gl_matches g) end.
 
 Definition read_pattern (w : world) (st : rstate) (jg : nat * glob_result) : rstate :=
   let '(j, g) := jg in
-  let pr1 := println (dec_of_N (N.of_nat (S j)) ++ s ". " ++ gl_pattern g) (r_pr st) in
-  let files := match gl_err g with Some _ => [] | None => sort_strs (gl_matches g) end in
+  let files := pattern_files g in
   let gerr_ := match gl_err g with
                | Some m => gprefix (s "pattern: " ++ quote (gl_pattern g) ++ s ": ") [leaf m]
                | None => None end in
-  let pr2 := match files with [] => println (s "   No files") pr1 | _ => pr1 end in
   fold_left (read_file w (gl_pattern g))
             files
             {| r_input := r_input st; r_found := r_found st; r_processed := r_processed st;
-               r_errs := r_errs st ++ [gerr_]; r_pr := pr2 |}.
+               r_errs := r_errs st ++ [gerr_];
+               r_lines := r_lines st ++ [dec_of_N (N.of_nat (S j)) ++ s ". " ++ gl_pattern g]
+                          ++ match files with [] => [s "   No files"] | _ => [] end |}.
 
 (** fmt.Sprintf("%#v", []string) without the "[]string" prefix *)
 Definition patterns_lit (l : list str) : str := s "{" ++ join (s ", ") (map quote l) ++ s "}".
 
-Definition step_read_config (w : world) (i : input) (p : pst) : (input * err) * pst :=
+Definition read_config (w : world) (i : input) : (input * err) * list str :=
   match wd_globs w with
-  | [] => ((i, gprefix (s "runner.StepReadConfig: ") [leaf (s "missing file patterns")]), p)
+  | [] => ((i, gprefix (s "runner.StepReadConfig: ") [leaf (s "missing file patterns")]), [])
   | globs =>
-    let st0 := {| r_input := i; r_found := false; r_processed := []; r_errs := []; r_pr := println (s "Patterns") p |} in
+    let st0 := {| r_input := i; r_found := false; r_processed := []; r_errs := []; r_lines := [s "Patterns"] |} in
     let st := fold_left (read_pattern w) (combine (seq 0 (length globs)) globs) st0 in
     let e_found := if r_found st then [] else [leaf (s "could not process any files")] in
     let e_dup := map (fun kv => leaf (s "file " ++ quote (fst kv) ++ s " matches more than one pattern: " ++ patterns_lit (snd kv)))
                      (filter (fun kv => Nat.ltb 1 (length (snd kv))) (sorted_entries (r_processed st))) in
-    ((r_input st, gprefix (s "runner.StepReadConfig: ") [gjoin (r_errs st ++ e_found ++ e_dup)]), r_pr st)
+    ((r_input st, gprefix (s "runner.StepReadConfig: ") [gjoin (r_errs st ++ e_found ++ e_dup)]), r_lines st)
   end.
 
 (** ** StepCompile: compiler.Compile stops at the first failing step *)
@@ -122,7 +137,7 @@ Definition compile (B : str) (i : input) : (output * err) * cst :=
   compile_steps B (w_compiler_steps E) i empty_output {| cs_imports := ist0; cs_fns := [] |}.
 
 (** ** the run *)
-Record run_state := { x_input : input; x_output : output; x_cst : cst; x_pr : pst; x_wrote : bool }.
+Record run_state := { x_input : input; x_output : output; x_cst : cst; x_wrote : bool }.
 
 Definition is_active (fl : flags) (sw : switch) : bool :=
   match sw with
@@ -137,37 +152,19 @@ Definition count_suffix (e : gerr) : str :=
   let n := length (collection e) in
   s " (" ++ dec_of_N (N.of_nat n) ++ (if Nat.ltb 1 n then s " errors)" else s " error)").
 
-(** StepVerboseSwitchable.Run around an inner action *)
-Definition verbose {S} (name : str) (active : bool) (get_pr : S -> pst) (set_pr : S -> pst -> S)
-           (inner : S -> res (S * err)) (st : S) : res (S * err) :=
-  match print_aligned name [] [] (get_pr st) with
-  | Panic m => Panic m
-  | Ok p1 =>
-    if negb active then
-      match print_aligned (name ++ s " END") (s "ignored") [] p1 with
-      | Panic m => Panic m
-      | Ok p2 => Ok (set_pr st p2, None)
-      end
-    else
-      match inner (set_pr st (indent (s "  ") p1)) with
-      | Panic m => Panic m
-      | Ok (st1, e) =>
-        match end_indent (get_pr st1) with
-        | None => Panic (s "EndIndent on an empty stack")
-        | Some p2 =>
-          match (match e with
-                 | None => print_aligned (name ++ s " END") (k_check E) [] p2
-                 | Some g => print_aligned (name ++ s " END") (k_xmark E) (count_suffix g) p2
-                 end) with
-          | Panic m => Panic m
-          | Ok p3 => Ok (set_pr st1 p3, e)
-          end
-        end
-      end
-  end.
-
-Definition set_pr (st : run_state) (p : pst) : run_state :=
-  {| x_input := x_input st; x_output := x_output st; x_cst := x_cst st; x_pr := p; x_wrote := x_wrote st |}.
+(** StepVerboseSwitchable.Run around an inner action: result, error, printer events *)
+Definition verbose {S} (name : str) (active : bool) (inner : S -> (S * err) * list event) (st : S) : (S * err) * list event :=
+  if negb active then
+    ((st, None), [EvAligned name [] []; EvAligned (name ++ s " END") (s "ignored") []])
+  else
+    let '((st1, e), evs) := inner st in
+    ((st1, e),
+     [EvAligned name [] []; EvIndent (s "  ")] ++ evs ++
+     [EvEndIndent;
+      match e with
+      | None => EvAligned (name ++ s " END") (k_check E) []
+      | Some g => EvAligned (name ++ s " END") (k_xmark E) (count_suffix g)
+      end]).
 
 Definition rule_run (k : rule_kind) (o : output) : err :=
   match k with
@@ -178,14 +175,13 @@ Definition rule_run (k : rule_kind) (o : output) : err :=
   end.
 
 (** StepAmalgamated: every sub-step runs, errors are joined *)
-Fixpoint amalgamated (fl : flags) (rules : list (str * rule_kind * switch)) (st : run_state) (acc : list err) : res (run_state * err) :=
+Fixpoint amalgamated (fl : flags) (rules : list (str * rule_kind * switch)) (st : run_state) (acc : list err) (evs : list event)
+  : (run_state * err) * list event :=
   match rules with
-  | [] => Ok (st, gjoin acc)
+  | [] => ((st, gjoin acc), evs)
   | (n, k, sw) :: rules' =>
-    match verbose n (is_active fl sw) x_pr set_pr (fun st' => Ok (st', rule_run k (x_output st'))) st with
-    | Panic m => Panic m
-    | Ok (st1, e) => amalgamated fl rules' st1 (acc ++ [e])
-    end
+    let '((st1, e), ev1) := verbose n (is_active fl sw) (fun st' => ((st', rule_run k (x_output st')), [])) st in
+    amalgamated fl rules' st1 (acc ++ [e]) (evs ++ ev1)
   end.
 
 Definition builtin_input (i : input) : input :=
@@ -196,40 +192,55 @@ Definition builtin_input (i : input) : input :=
                   m_functions := k_builtin_funcs E |};
      i_params := i_params i; i_services := i_services i; i_decorators := i_decorators i |}.
 
-Definition step_inner (B : str) (fl : flags) (w : world) (outfile : str) (k : rstep_kind) (st : run_state) : res (run_state * err) :=
+Definition step_inner (B : str) (fl : flags) (w : world) (outfile : str) (k : rstep_kind) (st : run_state)
+  : (run_state * err) * list event :=
   match k with
   | RDefaultInput =>
-      Ok ({| x_input := builtin_input (x_input st); x_output := x_output st; x_cst := x_cst st; x_pr := x_pr st; x_wrote := x_wrote st |}, None)
+      (({| x_input := builtin_input (x_input st); x_output := x_output st; x_cst := x_cst st; x_wrote := x_wrote st |}, None), [])
   | RReadConfig =>
-      let '((i, e), p) := step_read_config w (x_input st) (x_pr st) in
-      Ok ({| x_input := i; x_output := x_output st; x_cst := x_cst st; x_pr := p; x_wrote := x_wrote st |}, e)
+      let '((i, e), lines) := read_config w (x_input st) in
+      (({| x_input := i; x_output := x_output st; x_cst := x_cst st; x_wrote := x_wrote st |}, e), map EvLine lines)
   | RCompile =>
       let '((o, e), c) := compile B (x_input st) in
-      Ok ({| x_input := x_input st; x_output := o; x_cst := c; x_pr := x_pr st; x_wrote := x_wrote st |}, e)
-  | RAmalgamated rules => amalgamated fl rules st []
+      (({| x_input := x_input st; x_output := o; x_cst := c; x_wrote := x_wrote st |}, e), [])
+  | RAmalgamated rules => amalgamated fl rules st [] []
   | RCodeGen =>
-      let p1 := println (s "Generating source code") (x_pr st) in
       match wd_build_err w with
-      | Some m => Ok (set_pr st p1, leaf m)
+      | Some m => ((st, leaf m), [EvLine (s "Generating source code")])
       | None =>
-        let p2 := println (s "Printing to the file `" ++ outfile ++ s "`") p1 in
+        let evs := [EvLine (s "Generating source code"); EvLine (s "Printing to the file `" ++ outfile ++ s "`")] in
         match wd_write_err w with
-        | Some m => Ok (set_pr st p2, leaf m)
-        | None => Ok ({| x_input := x_input st; x_output := x_output st; x_cst := x_cst st; x_pr := p2; x_wrote := true |}, None)
+        | Some m => ((st, leaf m), evs)
+        | None => (({| x_input := x_input st; x_output := x_output st; x_cst := x_cst st; x_wrote := true |}, None), evs)
         end
       end
   end.
 
 (** Runner.Run: stop at the first failing step *)
-Fixpoint run_steps (B : str) (fl : flags) (w : world) (outfile : str) (steps : list rstep) (st : run_state) : res (run_state * err) :=
+Fixpoint run_steps (B : str) (fl : flags) (w : world) (outfile : str) (steps : list rstep) (st : run_state) (evs : list event)
+  : (run_state * err) * list event :=
   match steps with
-  | [] => Ok (st, None)
+  | [] => ((st, None), evs)
   | sp :: steps' =>
-    match verbose (rs_name sp) (is_active fl (rs_switch sp)) x_pr set_pr (step_inner B fl w outfile (rs_kind sp)) st with
-    | Panic m => Panic m
-    | Ok (st1, Some e) => Ok (st1, Some e)
-    | Ok (st1, None) => run_steps B fl w outfile steps' st1
+    let '((st1, e), ev1) := verbose (rs_name sp) (is_active fl (rs_switch sp)) (step_inner B fl w outfile (rs_kind sp)) st in
+    match e with
+    | Some _ => ((st1, e), evs ++ ev1)
+    | None => run_steps B fl w outfile steps' st1 (evs ++ ev1)
     end
+  end.
+
+(** the printer: replay the events *)
+Definition render_event (p : pst) (ev : event) : res pst :=
+  match ev with
+  | EvLine x => Ok (println x p)
+  | EvAligned l r x => print_aligned l r x p
+  | EvIndent x => Ok (indent x p)
+  | EvEndIndent => match end_indent p with Some p' => Ok p' | None => Panic (s "EndIndent on an empty stack") end
+  end.
+Fixpoint render (evs : list event) (p : pst) : res pst :=
+  match evs with
+  | [] => Ok p
+  | ev :: evs' => match render_event p ev with Ok p' => render evs' p' | Panic m => Panic m end
   end.
 
 Record outcome := { oc_exit : nat; oc_stdout : list str; oc_wrote : bool; oc_state : run_state; oc_errors : list str }.
@@ -237,14 +248,20 @@ Record outcome := { oc_exit : nat; oc_stdout : list str; oc_wrote : bool; oc_sta
 Definition numbered (l : list str) : list str :=
   map (fun ke => dec_of_N (N.of_nat (S (fst ke))) ++ s ". " ++ snd ke) (combine (seq 0 (length l)) l).
 
+Definition st0 : run_state :=
+  {| x_input := empty_input; x_output := empty_output; x_cst := {| cs_imports := ist0; cs_fns := [] |}; x_wrote := false |}.
+
+(** the command without its printing *)
+Definition run_core (B : str) (fl : flags) (w : world) (outfile : str) : (run_state * err) * list event :=
+  run_steps B fl w outfile (w_runner E) st0 [].
+
 (** cmd_build.go RunE + main: exit status and everything printed *)
 Definition run (B : str) (fl : flags) (w : world) (outfile : str) : res outcome :=
-  let st0 := {| x_input := empty_input; x_output := empty_output; x_cst := {| cs_imports := ist0; cs_fns := [] |};
-                x_pr := p0; x_wrote := false |} in
-  match run_steps B fl w outfile (w_runner E) st0 with
+  let '((st, e), evs) := run_core B fl w outfile in
+  match render evs p0 with
   | Panic m => Panic m
-  | Ok (st, e) =>
-    let report := rev (p_lines (x_pr st)) in
+  | Ok p =>
+    let report := rev (p_lines p) in
     match e with
     | None => Ok {| oc_exit := 0; oc_stdout := if f_quiet fl then [] else report; oc_wrote := x_wrote st; oc_state := st; oc_errors := [] |}
     | Some g =>
